@@ -171,3 +171,59 @@ func Verif_C12_DocText(n, m, multi int) {
 	verifsym.Observe("comment", cm)
 	verifsym.Reach("end")
 }
+
+// Verif_C12_LineWrap(base): two declarations far apart -
+//
+//	// +tag=a
+//	// doc A
+//	type A int
+//	<base + d blank lines, d = 0..8 by case split>
+//	type B int // tb
+//
+// B has no documentation however many lines lie in between (base is chosen so
+// that the distance crosses 2^8 or 2^16 lines), A keeps its own, and B's
+// trailing comment is B's.
+func Verif_C12_LineWrap(base int) {
+	gap := base + verifsym.IntRange(0, 8)
+	blank := make([]byte, gap)
+	for i := range blank {
+		blank[i] = '\n'
+	}
+	text := "package p\n\n// +tag=a\n// doc A\ntype A int\n" + string(blank) + "type B int // tb\n"
+	fset := token.NewFileSet()
+	var file *ast.File
+	var pa, pb token.Pos
+	if verifsym.Symbolic() {
+		src := vNewSrc(fset, text)
+		file = src.file()
+		c1 := src.pos("// +tag=a", token.NoPos)
+		c2 := src.pos("// doc A", token.NoPos)
+		ta := src.pos("type A int", token.NoPos)
+		tb := token.Pos(src.tf.Base() + len(text) - len("type B int // tb\n"))
+		doc := &ast.CommentGroup{List: []*ast.Comment{{Slash: c1, Text: "// +tag=a"}, {Slash: c2, Text: "// doc A"}}}
+		tr := &ast.CommentGroup{List: []*ast.Comment{{Slash: tb + 11, Text: "// tb"}}}
+		file.Comments = []*ast.CommentGroup{doc, tr}
+		pa, pb = ta+5, tb+5
+		da := &ast.GenDecl{Doc: doc, Tok: token.TYPE, TokPos: ta, Specs: []ast.Spec{&ast.TypeSpec{Name: &ast.Ident{NamePos: pa, Name: "A"}, Type: &ast.Ident{NamePos: pa + 2, Name: "int"}}}}
+		db := &ast.GenDecl{Tok: token.TYPE, TokPos: tb, Specs: []ast.Spec{&ast.TypeSpec{Name: &ast.Ident{NamePos: pb, Name: "B"}, Type: &ast.Ident{NamePos: pb + 2, Name: "int"}, Comment: tr}}}
+		file.Decls = []ast.Decl{da, db}
+	} else {
+		var err error
+		file, err = parser.ParseFile(fset, "/src/p/p.go", text, parser.ParseComments)
+		if err != nil {
+			panic(err)
+		}
+		pa = file.Decls[0].(*ast.GenDecl).Specs[0].(*ast.TypeSpec).Name.NamePos
+		pb = file.Decls[1].(*ast.GenDecl).Specs[0].(*ast.TypeSpec).Name.NamePos
+	}
+	p := vNewPkgFor(fset, file)
+	tags, lines := p.Doc(pa)
+	verifsym.Assert(len(tags) == 1 && len(tags["tag"]) == 1 && tags["tag"][0] == "a" && len(lines) == 1 && lines[0] == "doc A", "Doc is not exactly the comment group directly above the declaration")
+	tb, lb := p.Doc(pb)
+	verifsym.Assert(len(tb) == 0 && len(lb) == 0, "a declaration without doc comment gets documentation (a comment group many lines above)")
+	cb := p.Comment(pb)
+	verifsym.Assert(len(cb) == 1 && cb[0] == "tb", "Comment is not exactly the trailing comment on the declaration's line")
+	verifsym.Assert(len(p.Comment(pa)) == 0, "a declaration without trailing comment gets one")
+	verifsym.Observe("docB", lb)
+	verifsym.Reach("end")
+}
